@@ -62,12 +62,56 @@ def build_harness(bins=None):
     return time.time() - t0
 
 
+class CodePanic(MachineryError):
+    """The driver died of a panic raised inside the code under test (a frame of one of /repo's
+    crates is the first non-runtime frame of the backtrace, or the panic location is a file of
+    /repo).  Legal API calls never panic on the unchanged tree, so this is an observation of the
+    code, not a tool failure: bin/check turns it into a VIOLATION with a replay file unless the
+    check module handled it itself."""
+
+    def __init__(self, msg, payload):
+        super().__init__(msg)
+        self.payload = payload
+
+
+_RUNTIME_FRAME = re.compile(
+    r"^<?(&?mut )?(__rustc|rust_begin_unwind|core::|std::|alloc::|tokio::|scoped_tls::|tracing|futures|"
+    r"rand|indexmap::|hashbrown::|bytes::)")
+_UNDER_TEST = re.compile(r"^<?(&?mut )?(turmoil|turmoil_net|turmoil_fs|turmoil_io_uring)::")
+
+
+def classify_panic(out):
+    """Return a dict describing the first panic in a driver's output when it was raised inside
+    the code under test, else None."""
+    m = re.search(r"panicked at ([^\n]+):\n([^\n]*)", out)
+    if not m:
+        return None
+    loc, msg = m.group(1), m.group(2)
+    tail = out[m.end():]
+    nxt = tail.find("panicked at ")
+    if nxt >= 0:
+        tail = tail[:nxt]
+    frames = re.findall(r"^\s+\d+: (.+)$", tail, flags=re.M)
+    first = next((f for f in frames if not _RUNTIME_FRAME.match(f)), None)
+    in_repo = loc.startswith("crates/turmoil") or loc.startswith(REPO + "/") or "/crates/turmoil" in loc
+    if in_repo or (first and _UNDER_TEST.match(first)):
+        return {"location": loc, "message": msg, "first_frame": first, "frames": frames[:12]}
+    return None
+
+
 def run_driver(binary, args, timeout=3600):
+    env = dict(os.environ)
+    env.setdefault("RUST_BACKTRACE", "1")
     p = subprocess.run([os.path.join(BIN, binary)] + args, stdout=subprocess.PIPE,
-                       stderr=subprocess.STDOUT, text=True, timeout=timeout)
+                       stderr=subprocess.STDOUT, text=True, timeout=timeout, env=env)
     if p.returncode != 0:
         sys.stdout.write(p.stdout[-4000:])
-        raise MachineryError(f"driver {binary} {' '.join(args)} exited {p.returncode}")
+        what = f"driver {binary} {' '.join(args)} exited {p.returncode}"
+        pan = classify_panic(p.stdout) if p.returncode == 101 else None
+        if pan:
+            raise CodePanic(what + f": panic in the code under test at {pan['location']}: {pan['message']}",
+                            {"kind": "driver-panic", "driver": binary, "args": list(args), "panic": pan})
+        raise MachineryError(what)
     return p.stdout
 
 
